@@ -309,6 +309,75 @@ func genBlockwiseXfer(g *gen, repo string) {
 		fail("getPayloadFromCachedReceivedMessage: `case !bytes.Equal(rETAG, cachedReceivedMessageETAG)` not found")
 	}
 
+	// guard discipline: the per-entry semaphore acquired in getCachedReceivedMessage is released only by the deferred
+	// closeCachedReceivedMessage(), i.e. after `next(w, cachedReceivedMessage)` has returned; nothing releases it earlier.
+	{
+		gotGuard, deferred, closeCalls, releases, goStmts, nextOnCached := false, false, 0, 0, 0, 0
+		ast.Inspect(prm.Body, func(n ast.Node) bool {
+			switch x := n.(type) {
+			case *ast.AssignStmt:
+				if len(x.Lhs) == 3 && len(x.Rhs) == 1 && c04Str(x.Lhs[0]) == "cachedReceivedMessage" && c04Str(x.Lhs[1]) == "closeCachedReceivedMessage" &&
+					strings.HasPrefix(c04Str(x.Rhs[0]), "b.getCachedReceivedMessage(") {
+					gotGuard = true
+				}
+			case *ast.DeferStmt:
+				if c04Str(x.Call.Fun) == "closeCachedReceivedMessage" {
+					deferred = true
+				}
+			case *ast.GoStmt:
+				goStmts++
+			case *ast.CallExpr:
+				f := c04Str(x.Fun)
+				if f == "closeCachedReceivedMessage" {
+					closeCalls++
+				}
+				if strings.HasSuffix(f, ".Release") {
+					releases++
+				}
+				if f == "next" && len(x.Args) == 2 && c04Str(x.Args[1]) == "cachedReceivedMessage" {
+					nextOnCached++
+				}
+			}
+			return true
+		})
+		if !gotGuard {
+			fail("processReceivedMessage: `cachedReceivedMessage, closeCachedReceivedMessage, err := b.getCachedReceivedMessage(…)` not found")
+		}
+		if !deferred || closeCalls != 1 {
+			fail("processReceivedMessage: the guard must be released by `defer closeCachedReceivedMessage()` only (found %d calls, deferred=%v)", closeCalls, deferred)
+		}
+		if releases != 0 || goStmts != 0 || nextOnCached != 1 {
+			fail("processReceivedMessage: unexpected guard handling (Release calls %d, go statements %d, next(w, cachedReceivedMessage) calls %d)", releases, goStmts, nextOnCached)
+		}
+		gc := funcDecl(f, "BlockWise", "getCachedReceivedMessage")
+		acquires, bareRelease := 0, 0
+		var walk func(n ast.Node, inLit bool)
+		walk = func(n ast.Node, inLit bool) {
+			ast.Inspect(n, func(m ast.Node) bool {
+				switch x := m.(type) {
+				case *ast.FuncLit:
+					if m != n {
+						walk(x.Body, true)
+						return false
+					}
+				case *ast.CallExpr:
+					f := c04Str(x.Fun)
+					if strings.HasSuffix(f, ".Acquire") {
+						acquires++
+					}
+					if strings.HasSuffix(f, ".Release") && !inLit {
+						bareRelease++
+					}
+				}
+				return true
+			})
+		}
+		walk(gc.Body, false)
+		if acquires == 0 || bareRelease != 0 {
+			fail("getCachedReceivedMessage: the guard is not acquired, or released outside the returned close function (Acquire %d, bare Release %d)", acquires, bareRelease)
+		}
+	}
+
 	// Handle: `if !more && sendingMessageCode > codes.DELETE { b.sendingMessagesCache.Delete(tokenStr) }`
 	h := funcDecl(f, "BlockWise", "Handle")
 	delAfterLast := false
@@ -373,6 +442,7 @@ func genBlockwiseXfer(g *gen, repo string) {
 	fmt.Fprintf(&b, "/-- processReceivedMessage: a POST/PUT without Block1 asking for a Block2 block with NUM > 0 is refused (4.08), not handed to `next` -/\ndef refusesLostContinuation : Bool := %s\n", c04Bool(refusesLostContinuation))
 	fmt.Fprintf(&b, "/-- processReceivedMessage: the response of a POST/PUT is never re-requested from block 0 (the request would go out without its body) -/\ndef refusesBodylessRestart : Bool := %s\n", c04Bool(refusesBodylessRestart))
 	fmt.Fprintf(&b, "/-- processReceivedMessage: a block at offset 0 (re)starts the transfer: held bytes dropped, options and code taken from the block -/\ndef block0Restarts : Bool := %s\n", c04Bool(block0Restarts))
+	fmt.Fprintf(&b, "/-- processReceivedMessage / getCachedReceivedMessage: the per-entry guard is acquired before the cached message is touched and released only by the deferred close function, after `next(w, cachedReceivedMessage)` has returned (no earlier release, no go statement) -/\ndef guardReleasedOnlyAfterNext : Bool := true\n")
 	fmt.Fprintf(&b, "/-- getPayloadFromCachedReceivedMessage: on an ETag change the cached message takes over all options and the code of the new block (false: only the ETag) -/\ndef restartTakesNewOptions : Bool := %s\n", c04Bool(restartTakesOptions))
 	fmt.Fprintf(&b, "/-- udp/client: DefaultConfig BlockwiseTransferTimeout (ns), BlockwiseSZX, MaxMessageSize -/\ndef defaultTransferTimeoutNs : Nat := %d\ndef defaultSZX : Nat := %d\ndef defaultMaxMessageSize : Nat := %d\n",
 		int64(udpclient.DefaultConfig.BlockwiseTransferTimeout), uint64(udpclient.DefaultConfig.BlockwiseSZX), uint64(udpclient.DefaultConfig.MaxMessageSize))
